@@ -55,6 +55,9 @@ ASSUMPTIONS = [
     "covariance is numerically singular in the whitened space (rank-deficient data, p > n-1, or a zero-variance PC kept by n_pca_modes='all'): the pseudo-power's "
     "cut-off at machine eps lets rounding grow by up to (s1/eps)^((1-alpha)/2) - conditioning, not a wrong formula (every mutant moves results by > 1e-2)",
     "score arrays of clause (ii) are drawn at the magnitude of the model's own scores, so that the rounding of the mean that is added back stays below the tolerance",
+    "normalized switches, direction: the un-normalised variant equals the normalised one times the norm (scores, transform, components), and "
+    "inverse_transform(s, normalized=True) equals inverse_transform(s * norm); cross-set inverse_transform has no such switch and is not compared; "
+    "the transform switch is evaluated on NaN-free data (the reconstruction of clause (ii), else the training data): transform of data holding a fully-NaN sample is C04/C06's subject",
     "normalized switches are compared on modes whose score norm exceeds 1e-9 of the largest one (a zero norm cannot be divided by)",
     "deferred provenance (compute=False on sample-wise chunked dask input, then compute()) only for real-valued models (complex data with dask is a "
     "documented refusal) and on the single DataArray (dask's svd refuses the per-piece chunked feature axis of Dataset / list inputs; two witnesses are tallied as refused)",
@@ -98,14 +101,6 @@ def layout(cont, size):
             "list_ds": [("da", "p", (2, 2)), ("ds", [("u", (2,))])],
         }[cont]
     raise ValueError(size)
-
-
-def n_features(cont, size):
-    tot = 0
-    for it in layout(cont, size):
-        grids = [it[2]] if it[0] == "da" else [g for _, g in it[1]]
-        tot += sum(int(np.prod(g)) for g in grids)
-    return tot
 
 
 def sample_shape(n, ns):
